@@ -51,3 +51,11 @@ PROPS["C11"] = dict(
 PROPS["C12"] = dict(
     level_text="Soundness theorem with explicit merkle-branch witness for every message; the Go-shaped extractor model is proved equal to a parser-style independent evaluation; exhaustive small scope + mutated honest proofs compared with the real ExtractMatches.",
     level_note=_bloom_note, assumptions=COMMON_ASSUME)
+_gcs_note = ("Trusted: Lean kernel + propext/Classical.choice/Quot.sound; SipHash-2-4 is a parameter in theorems and lean/Bch/Prim/SipHash.lean in the driver; kkdai/bstream is "
+             "modelled as an MSB-first bit list (justified in DESIGN C13); sort.Slice as a sorting function; wire.Read/WriteVarInt as Model.Gcs.read/writeVarInt; Go runtime.")
+PROPS["C13"] = dict(
+    level_text="Theorems over the UInt64/bit-list model of gcs.go (fastReduction = floor(v*n/2^64); Golomb-Rice round trip; members match through every strategy; strategies agree on built filters); every run compares filter bytes and all four query answers with the real code, incl. a directed low-32-bit collision search.",
+    level_note=_gcs_note, assumptions=COMMON_ASSUME)
+PROPS["C14"] = dict(
+    level_text="Bit-exact BIP158-style encoding theorem and serialisation round trips over the same model, plus the builder chain/basic block filter model; correspondence on filter bytes, all four serialisations, rebuilt filters, raw/truncated/non-canonical CompactSize inputs, builder chains and random blocks.",
+    level_note=_gcs_note, assumptions=COMMON_ASSUME)
